@@ -254,6 +254,12 @@ class Hist:
                 self.log.append(f'make_unique map{mi} (name {e["targetname"]!r})')
                 e.make_unique(rng.choice(('', 'auto', 'Door')))
                 self.nontrivial = True
+                # what it is for: afterwards no other entity of the map answers to this name (names are case-insensitive)
+                mine_ = e['targetname'].casefold()
+                twins = [o for o in vmf.entities if o is not e and mine_ and o['targetname'].casefold() == mine_]
+                self.run.count('make_unique_results_checked')
+                if twins:
+                    self.fail(f'after make_unique() {len(twins)} other entit(y/ies) are still called {e["targetname"]!r}', 'make-unique-not-unique')
             elif op in ('copy_same', 'copy_other'):
                 e = self.any_ent(vmf, True)
                 if e is None:
@@ -451,7 +457,7 @@ def main(run, shard=(0, 1)) -> None:
         # the repository's own tests as an additional workload, with runtime contracts attached (rv/contracts.py)
         from rv.repo_tests_engine import run_repo_tests_with_contracts
         run_repo_tests_with_contracts(run, 'C07', ['test_vmf.py', 'test_instancing.py', 'test_bsp_entities.py', 'test_packlist.py'] if run.tier == 'thorough' else ['test_vmf.py', 'test_instancing.py'])
-    run.require('mutating_iterations_checked', 'worldspawn_removals_asked', 'entities_added_again', 'invariant_evaluations', 'history_steps')
+    run.require('mutating_iterations_checked', 'worldspawn_removals_asked', 'entities_added_again', 'make_unique_results_checked', 'invariant_evaluations', 'history_steps')
 
 
 def replay(run, data) -> None:
